@@ -503,7 +503,11 @@ def build_hexconst(args, features):
     opts = dict(a.split('=', 1) for a in args[2:])
     vis = opts.get('vis', 'pub')
     out = []
-    for name in args[1].split(','):
+    names = args[1].split(',')
+    if names == ['*']:
+        src0, rtoks0 = load_repo_file(path)
+        names = [it.name for it in parse_items(rtoks0, 0, len(rtoks0)) if it.kind == 'const' and cfg_ok(rtoks0, it.attrs, features)]
+    for name in names:
         src, rtoks, item = locate(path, 'const', name, features)
         ts = rtoks[item.start:item.end]
         lits = [t.text for t in ts if t.kind == 'str']
